@@ -25,6 +25,17 @@ CLAIMED = {
    text='connection_got_new_message records every message (append, earlier records kept) and writes its line exactly once iff the selected connection and the filter in force agree, else not at all; filter/breakpoint/list commands write no message line and never touch the recorded lists (frame obligations).',
    note='Trusted: disseminator delivery (listener fan-out), Matcher.matches interface contract, stream write = one trace entry. ConnectionImpl.message -> listener hop is covered when C02/C04 are built.',
    technique='contract-based deductive verification with ghost output trace; z3'),
+ 'C02': dict(level='proof', design='6.C02',
+   text='Representation invariant of the object table (ids -> incarnation lists: id, generation == position, owning connection, only the last incarnation may be alive, wl_display fixed) is preserved by create_object, every Arg.*.resolve and Message.resolve (loop invariant over all argument lists); '
+        'create_object appends exactly one incarnation with generation == old length, refuses live client-range duplicates and the duplicate registry, recycles live server-range ids; a mention resolves to the latest incarnation (UnresolvedObject.resolve, retrieve_object); '
+        'tables only grow, existing incarnations keep id/generation/type (frame), only a typed new-id argument creates.',
+   note='Trusted: protocol look-ups (C07 contracts), glob reflexivity axiom for type patterns, string builders, pyvc + z3. The abstract step function of DESIGN A.2 is not proved as one refinement statement; the per-argument clauses above are. Histories enter as the invariant (inv_conn) being inductive.',
+   technique='contract-based deductive verification: data-structure invariant + frame/ownership conditions on the real heap code; z3'),
+ 'C03': dict(level='proof', design='6.C03',
+   text='destroy sets alive False / destroy_time; lifespan is destroy minus create; Message.resolve destroys exactly the latest incarnation of the id named by delete_id on the connection display (sent or received) at the message time and nothing else; '
+        'create_object destroys only a live server-range predecessor; at most the last incarnation of an id is alive in every reachable table (inv_conn).',
+   note='alive is written only by ObjectBase.__init__/destroy (frame obligations of every verified function; global writer scan pending). Floats as reals. The destroyed-annotation text of Message.__str__ is C17 territory.',
+   technique='contract-based deductive verification (invariant + frames); z3'),
 }
 
 NA_REASON = 'not yet built in this session (machinery under construction); see DESIGN.md section 6'
